@@ -21,15 +21,31 @@ Definition flat (l : list (N * list N)) : list N := flat_map (fun p => fst p :: 
 Definition instance_ids (s : shape) : list N := flat (fst (assign 1 s)).
 
 (** the container: accessories with their ids, the id counter *)
-Record container := mkCont { c_accs : list (N * shape); c_count : N }.
-Definition empty_container : container := mkCont [] 1.
+(** [c_reserved]: the ids ever given to an accepted accessory (the map `as` of the Go code, which RemoveAccessory
+    does not touch) *)
+Record container := mkCont { c_accs : list (N * shape); c_count : N; c_reserved : list N }.
+Definition empty_container : container := mkCont [] 1 [].
 
 (** AddAccessory of an accessory with explicit id [eid] (0 = none). Returns the container and whether the
     accessory was accepted (a duplicate id is an error; the counter is consumed all the same). *)
 Definition add_accessory (m : container) (eid : N) (s : shape) : container * bool :=
   let '(aid, count') := if eid =? 0 then (c_count m, c_count m + 1) else (eid, c_count m) in
-  if existsb (fun a => fst a =? aid) (c_accs m) then (mkCont (c_accs m) count', false)
-  else (mkCont (c_accs m ++ [(aid, s)]) count', true).
+  if existsb (N.eqb aid) (c_reserved m) then (mkCont (c_accs m) count' (c_reserved m), false)
+  else (mkCont (c_accs m ++ [(aid, s)]) count' (aid :: c_reserved m), true).
+
+(** RemoveAccessory of the member at position [i] of the list (the Go code compares pointers: an accessory that is
+    not a member — e.g. one that AddAccessory refused — removes nothing); the id stays reserved *)
+Fixpoint remove_nth {A} (i : nat) (l : list A) : list A :=
+  match l, i with
+  | [], _ => []
+  | _ :: r, O => r
+  | x :: r, S j => x :: remove_nth j r
+  end.
+Definition remove_accessory (m : container) (member : option nat) : container :=
+  match member with
+  | None => m
+  | Some i => mkCont (remove_nth i (c_accs m)) (c_count m) (c_reserved m)
+  end.
 
 Definition add_all (l : list (N * shape)) : container :=
   fold_left (fun m a => fst (add_accessory m (fst a) (snd a))) l empty_container.
